@@ -18,7 +18,7 @@ PROPS = {
     "C05": dict(configs=["ring", "aws"], floor=1000),
     "C07": dict(configs=["ring", "aws"], floor=1000),
     "C08": dict(configs=["ring", "aws"], floor=1000),
-    "C09": dict(layers=['miri-c09'], configs=["ring"], configs_thorough=["ring", "aws"], floor=1000, exhaustive_thorough=False),
-    "C13": dict(layers=['miri-c13'], configs=["ring"], configs_thorough=["ring", "aws"], floor=1000000, exhaustive_thorough=True),
-    "C20": dict(layers=['miri-c20'], configs=["ring"], configs_thorough=["ring", "aws"], floor=100000, exhaustive_thorough=True),
+    "C09": dict(layers=['miri-c09'], configs=["ring", "aws"], configs_thorough=["ring", "aws"], floor=1000, exhaustive_thorough=False),
+    "C13": dict(layers=['miri-c13'], configs=["ring", "aws"], configs_thorough=["ring", "aws"], floor=1000000, exhaustive_thorough=True),
+    "C20": dict(layers=['miri-c20'], configs=["ring", "aws"], configs_thorough=["ring", "aws"], floor=100000, exhaustive_thorough=True),
 }
